@@ -438,3 +438,28 @@ pub fn many_queens_position(rng: &mut Rng) -> Pos {
         }
     }
 }
+
+/// A promotion-choice position in which promoting to a queen stalemates the defender while
+/// another piece does not (found with the rules model among `promotion_choice_position`s);
+/// None within the try budget.
+pub fn stalemate_trick_position(rng: &mut Rng) -> Option<Pos> {
+    for _ in 0..400 {
+        let mut p = promotion_choice_position(rng);
+        p.halfmove = 0;
+        // look at the position with the pawn's side to move
+        let mover_has_pawn_on_7th = |q: &Pos| q.legal_moves().iter().any(|m| m.promo != 0);
+        let probe = if mover_has_pawn_on_7th(&p) {
+            p.clone()
+        } else {
+            continue;
+        };
+        let trick = probe.legal_moves().iter().filter(|m| m.promo == QUEEN).any(|m| {
+            let after = probe.make(m);
+            !after.in_check() && after.legal_moves().is_empty()
+        });
+        if trick {
+            return Some(p);
+        }
+    }
+    None
+}
